@@ -34,6 +34,8 @@ type c01Case struct {
 	// time and sends the rest. When segments arrive has no bearing on the
 	// result; time is only the trigger, nothing is armed on a correct server.
 	PauseAt int `json:"pause_at,omitempty"`
+	// TLS: the connection is under (implicit) TLS; every segment is a record
+	TLS bool `json:"tls,omitempty"`
 }
 
 // maxStretch is the length of the longest run of octets that ends in LF (the
@@ -85,10 +87,17 @@ func c01Run(c c01Case) Verdict {
 	if pause {
 		cfg.WriteTimeoutMs = 15
 	}
+	if c.TLS {
+		cfg.TLS = "implicit"
+	}
 	script := harness.Script{LMTPSession: c.Mode == 2,
 		DefaultData: &harness.DataPlan{Read: harness.ReadPlan{Sizes: c.Reads, Limit: -1, Retry: 2}, Honest: true}}
 	r := harness.NewRig(cfg, script)
-	w, _ := r.Dial()
+	w, derr := r.Dial()
+	if derr != nil {
+		w.Finish()
+		return Verdict{Inconclusive: "dial: " + derr.Error()}
+	}
 	if _, e := openData(w, cfg.LMTP, 1); e != "" {
 		w.Finish()
 		return Verdict{Inconclusive: e}
@@ -129,6 +138,9 @@ func c01Run(c c01Case) Verdict {
 	}
 	if pause {
 		v.Classes = append(v.Classes, "paused_past_write_timeout")
+	}
+	if c.TLS {
+		v.Classes = append(v.Classes, "under_tls")
 	}
 	if c.LineLimit > 0 && len(stream) > c.LineLimit {
 		v.Classes = append(v.Classes, "line_limit_on")
@@ -220,6 +232,7 @@ func c01Gen(t *rapid.T) c01Case {
 			c.LimitAt = genLimitBelow(t, want, "limit_at")
 		}
 	}
+	c.TLS = rapid.IntRange(0, 7).Draw(t, "tls") == 0
 	// a few paused transfers (each costs its pause in wall-clock time)
 	if len(stream) > 2 && rapid.IntRange(0, 999).Draw(t, "pause")%50 == 7 {
 		c.PauseAt = rapid.IntRange(1, len(stream)-1).Draw(t, "pause_at")
